@@ -144,3 +144,114 @@ def check_c14(tier, seed):
     print(f'[{pid}] theorems={obligations} discharged={obligations if proof_ok else 0} programs={len(jobs)} cells={cells} '
           f'failing_programs={len(failures)} wall={wall:.1f}s')
     return 1 if violations else 0
+
+
+# ---------------------------------------------------------------------------------------------------------------
+# C18
+# ---------------------------------------------------------------------------------------------------------------
+C18_PRELUDE = '#include <kdbindings/binding.h>\n#include <string>\nusing namespace KDBindings;\n'
+C18_MUST_FAIL = [
+    ('too_many_params', 'Signal<int> s; auto h = s.connect([](int, int) {});', 'Signal<int> s; auto h = s.connect([](int) {});'),
+    ('too_many_bound', 'Signal<int> s; auto h = s.connect([](int) {}, 1, 2);', 'Signal<int> s; auto h = s.connect([](int) {}, 1);'),
+    ('needs_more_than_emitted', 'Signal<> s; auto h = s.connect([](int, int) {}, 1);', 'Signal<> s; auto h = s.connect([](int, int) {}, 1, 2);'),
+    ('rvalue_member_on_lvalue_object', 'struct O { void m(int) && {} }; O o; Signal<int> s; auto h = s.connect(&O::m, &o);',
+     'struct O { void m(int) & {} }; O o; Signal<int> s; auto h = s.connect(&O::m, &o);'),
+    ('unconvertible_parameter', 'Signal<std::string> s; auto h = s.connect([](int *) {});', 'Signal<std::string> s; auto h = s.connect([](std::string) {});'),
+    ('rvalue_reference_parameter', 'Signal<int &&> s;', 'Signal<int &> s;'),
+    ('rvalue_reference_parameter_among_others', 'Signal<int, std::string &&> s;', 'Signal<int, const std::string &> s;'),
+    ('rvalue_reference_parameter_connect_only', 'Signal<int &&> s; auto h = s.connect([]() {});', 'Signal<int> s; auto h = s.connect([]() {});'),
+    ('copy_construct_signal', 'Signal<int> a; Signal<int> b(a);', 'Signal<int> a; Signal<int> b(std::move(a));'),
+    ('copy_assign_signal', 'Signal<int> a, b; b = a;', 'Signal<int> a, b; b = std::move(a);'),
+    ('copy_construct_property', 'Property<int> a{ 1 }; Property<int> b(a);', 'Property<int> a{ 1 }; Property<int> b(std::move(a));'),
+    ('copy_assign_property', 'Property<int> a{ 1 }, b{ 2 }; b = a;', 'Property<int> a{ 1 }, b{ 2 }; b = std::move(a);'),
+    ('copy_construct_scoped_connection', 'ScopedConnection a; ScopedConnection b(a);', 'ScopedConnection a; ScopedConnection b(std::move(a));'),
+    ('copy_assign_scoped_connection', 'ScopedConnection a, b; b = a;', 'ScopedConnection a, b; b = std::move(a);'),
+    ('copy_construct_binding', 'Property<int> p{ 1 }; auto b = makeBinding(p); Binding<int, ImmediateBindingEvaluator> c(*b);',
+     'Property<int> p{ 1 }; auto b = makeBinding(p);'),
+    ('copy_assign_binding', 'Property<int> p{ 1 }; auto b = makeBinding(p); auto c = makeBinding(p); *c = *b;',
+     'Property<int> p{ 1 }; auto b = makeBinding(p); auto c = makeBinding(p);'),
+]
+
+
+def syntax_only(job):
+    src = job
+    rc, out = V.sh(['g++', '-std=c++17', '-fsyntax-only', '-I' + os.path.join(V.REPO, 'src'), src], timeout=600)
+    return src, rc, out[-1500:]
+
+
+def check_c18(tier, seed):
+    t0 = time.time()
+    pid = 'C18'
+    out = os.path.join(V.OUT, pid)
+    gdir = os.path.join(out, 'grid')
+    os.makedirs(gdir, exist_ok=True)
+    notes, violations = [], []
+    sys.path.insert(0, os.path.join(ROOT, 'translate'))
+    import aritytable
+    ok1, m1 = aritytable.run()
+    notes.append('aritytable: ' + m1)
+    bad = V.forbidden_scan()
+    pr = V.check_properties_file(pid)
+    obligations = len(pr['theorems'])
+    proof_ok = pr['ok'] and not bad and ok1
+    # positive grid
+    pos = compile_and_run((os.path.join(ROOT, 'harness', 'c18', 'positive.cpp'), os.path.join(gdir, 'positive'),
+                           ['-std=c++17', '-O0', '-fsanitize=undefined,address', '-fno-sanitize-recover=all', '-I' + os.path.join(V.REPO, 'src')], []))
+    m = re.search(r'cells (\d+) failures (\d+)', pos['out'])
+    cells = int(m.group(1)) if m else 0
+    failing = []
+    if pos['rc'] != 0:
+        failing.append(('positive', pos['src'], pos['out']))
+    # must-fail cells and their compiling twins
+    srcs = []
+    for name, badc, goodc in C18_MUST_FAIL:
+        for kind, code in (('bad', badc), ('good', goodc)):
+            src = os.path.join(gdir, f'{name}_{kind}.cpp')
+            open(src, 'w').write(C18_PRELUDE + 'int main()\n{\n    ' + code + '\n    return 0;\n}\n')
+            srcs.append(src)
+    with concurrent.futures.ThreadPoolExecutor(max_workers=16) as ex:
+        res = {s_: (rc, o) for s_, rc, o in ex.map(syntax_only, srcs)}
+    for name, badc, goodc in C18_MUST_FAIL:
+        rb = res[os.path.join(gdir, f'{name}_bad.cpp')]
+        rg = res[os.path.join(gdir, f'{name}_good.cpp')]
+        cells += 2
+        if rb[0] == 0:
+            failing.append((name, os.path.join(gdir, f'{name}_bad.cpp'), 'ill-formed use was ACCEPTED by the compiler:\n    ' + badc))
+        if rg[0] != 0:
+            failing.append((name, os.path.join(gdir, f'{name}_good.cpp'), 'the well-formed twin was rejected:\n    ' + goodc + '\n' + rg[1]))
+    if failing:
+        name, src, what = failing[0]
+        replay = os.path.join(out, f'replay_{seed}.txt')
+        with open(replay, 'w') as f:
+            f.write(f'# property=C18 cell={name} source={src}\n{what}\n')
+        violations.append(('grid', replay, f'{len(failing)} cells fail'))
+    if not proof_ok and not failing:
+        replay = os.path.join(out, f'proof_broken_{seed}.txt')
+        with open(replay, 'w') as f:
+            f.write('property C18: a table regenerated from the current headers no longer passes its check (coq/Properties_C18.v)\n')
+            f.write(f'failed at {pr.get("failed_at")}; translator: {m1}; forbidden: {bad}\n\n' + pr['log'][-4000:])
+        violations.append(('proof', replay, 'no-failing-input-found'))
+    wall = time.time() - t0
+    coverage = {
+        'obligations': obligations, 'discharged': obligations if proof_ok else 0,
+        'checker_cmd': 'python3 translate/aritytable.py && cd coq && make -k Properties_C18.vo',
+        'trusted_base': ['Coq 8.16.1 kernel; vm_compute for the finite sweeps over the regenerated tables',
+                         'translate/aritytable.py over clang 14 JSON AST and (for the static_assert condition) the source text',
+                         'std::bind / std::function as specified by the standard; g++ 12 as the judge of well-formedness',
+                         'Print Assumptions: ' + '; '.join(sorted(set(pr['assumptions'])))],
+        'theorems': pr['theorems'],
+        'programs': 1 + len(srcs), 'disagreements_checked': cells,
+        'evaluations': cells, 'distinct_nontrivial': cells,
+        'rule': 'positive cells: (callable shape, arity, bound count, signal arity) compiled, run with distinct values, bound l-values '
+                'modified between connect and emit; negative cells: an ill-formed use must be rejected while a twin differing only in the '
+                'offending detail compiles; all cells distinct by construction',
+        'exhaustive': True,
+        'samples': [{'must_fail': C18_MUST_FAIL[0][1], 'twin': C18_MUST_FAIL[0][2]}],
+        'source_fingerprint': V.repo_fingerprint(), 'notes': notes,
+    }
+    V.write_evidence(pid, tier, seed, 'proof', coverage, wall, len(violations),
+                     ['acceptance by the C++ type system is validated on the stated grid, not derived'])
+    for kind, rp, what in violations:
+        print(f'VIOLATION property={pid} replay={rp}' + (' no-failing-input-found' if kind == 'proof' else ''))
+    print(f'[{pid}] theorems={obligations} discharged={obligations if proof_ok else 0} cells={cells} failing={len(failing)} wall={wall:.1f}s')
+    return 1 if violations else 0
